@@ -549,17 +549,23 @@ impl<'a> Parser<'a> {
         self.emit_node(SyntaxKind::FunctionDecl, |this| {
             this.expect(TokenKind::Function);
 
+            // A declaration without a name, a parameter list or a body is a syntax error: it used to be
+            // accepted silently and lowered to an error node that reached code generation.
             // Mark function name with IdentFunction kind
             if this.check(TokenKind::Ident) {
                 if let Some(&token_idx) = this.preparsed.token_indices.get(this.current) {
                     this.tokens[token_idx].kind = TokenKind::IdentFunction;
                 }
                 this.bump();
+            } else {
+                this.error_expected("Ident");
             }
 
             // Parameters
             if this.check(TokenKind::ParenBegin) {
                 this.parse_param_list();
+            } else {
+                this.error_expected("ParenBegin");
             }
 
             // Optional return type annotation after '->'
@@ -571,8 +577,24 @@ impl<'a> Parser<'a> {
             // Body
             if this.check(TokenKind::BlockBegin) {
                 this.parse_block_expr();
+            } else {
+                this.error_expected("BlockBegin");
             }
         });
+    }
+
+    /// Record "expected `what`" at the current token without consuming it.
+    fn error_expected(&mut self, what: &str) {
+        if self.is_at_end() {
+            self.add_error(ParserError::unexpected_eof(self.current_token_index(), what));
+        } else {
+            let found = self.peek().map(|k| format!("{k:?}")).unwrap_or_default();
+            self.add_error(ParserError::unexpected_token(
+                self.current_token_index(),
+                what,
+                &found,
+            ));
+        }
     }
 
     /// Parse let declaration: let pattern = expr
